@@ -347,6 +347,19 @@ def x_reported_text(ctx, case):
         got = as_iter.describe() if as_iter is not None else None
         ctx.check(got == expected, "describe()-is-repeatable-and-shown",
                   lambda: {"expr": expr, "value": raw, "described for the list": expected, "for an iterator over it": got})
+    if expr[0] == "AllMatch":
+        # every element that does not match is reported - two equal elements failing alike are two lines, not one
+        inner = G.build(expr[1], E)
+        try:
+            children = [mm.describe() for mm in (inner.match(x) for x in G.mkvalue(raw, E)) if mm is not None]
+        except Exception:  # noqa
+            children = []
+        if children and all("\n" not in c for c in children):
+            lines = expected.split("\n")
+            short = {c: (lines.count(c), children.count(c)) for c in set(children) if lines.count(c) != children.count(c)}
+            ctx.check(not short, "describe()-is-repeatable-and-shown",
+                      lambda: {"expr": expr, "value": raw, "constituent mismatch: (lines shown, elements failing so)": short,
+                               "described": expected})
     value = G.mkvalue(raw, E)
 
     class T(testtools.TestCase):
